@@ -1,5 +1,6 @@
 (** C08 — gather_and_close waits for everything, then closes for good.  Property theorems only. *)
 From TP Require Import PSpecStep PRun PWF PStep_D PProps_B PProps_B_inv PExamples.
+From TP Require PProps_C08rc.
 
 Theorem C08 : forall c tr, clean (run c tr) -> C08_spec (run c tr).
 Proof. intros c tr Hc. destruct (WFx_run c tr Hc). apply C08_of_WF; assumption. Qed.
@@ -17,26 +18,7 @@ Theorem C08_requests_complete : forall c tr d x re, clean (run c tr) -> taint_it
     | MMap _ => m_idx y = length (m_els y)
     | _ => tasks_of s m = (if m_bad y then 0 else m_num y)
     end.
-Proof.
-  intros c tr d x re Hc Hti Hx Hk Hf s. subst s.
-  pose proof (WFx_run c tr Hc) as X. destruct X.
-  pose proof (C08_of_WF _ x_wf x_d) as S8.
-  pose proof (c08_gac_done _ S8 d x re Hx Hk Hf) as Hclosed.
-  split; [exact (c08_closed_empty _ S8 Hclosed)|].
-  intros m y Hy Hnd.
-  destruct (c08_closed_metas _ S8 Hclosed m y Hy) as [Hfin|Hdead]; [|congruence].
-  pose proof (IR_final _ (wfr _ x_wf) m y Hy) as HF. unfold req_final_ok in HF.
-  pose proof (IR_progress _ (wfr _ x_wf) m y Hy) as HP. unfold req_progress in HP.
-  pose proof (IR_ncreated _ (wfr _ x_wf) m y Hy) as HN.
-  destruct (m_final y) as [[|e|]|] eqn:E; try congruence.
-  - split; [reflexivity|].
-    destruct HF as [HF|[HF|HF]]; try congruence.
-    destruct (m_kind y); try exact HF.
-    + destruct HP as [_ HP]. rewrite <- HN, HP. destruct (m_bad y); [reflexivity|exact HF].
-    + destruct HP as [_ HP]. rewrite <- HN, HP. destruct (m_bad y); [reflexivity|exact HF].
-  - destruct HF.
-  - destruct HF as [HF|HF]; congruence.
-Qed.
+Proof. exact PProps_C08rc.C08_requests_complete_holds. Qed.
 
 Example C08_example :
   let s := run cfg2 tr_close in
@@ -44,5 +26,11 @@ Example C08_example :
   res (step s (LOp (OpApply 1 false false w_sp CbNone CbNone None))) = RErr ErrPoolIsClosed.
 Proof. vm_compute. repeat split; reflexivity. Qed.
 
+(** Monitor soundness: the extracted monitor for C08 (all seven clauses) never rejects a stream of the model (P-iter, P-self: both shown necessary in PMonSound8_cex.v). *)
+From TP Require PMonSound8_C08 PObs PMon.
+Theorem mon_sound : forall c tr, clean (run c tr) -> taint_iter (run c tr) = false -> taint_self (run c tr) = false -> PMon.ok_C08 c (PObs.observe c tr) = true.
+Proof. exact PMonSound8_C08.mon_C08_sound. Qed.
+
 Print Assumptions C08.
 Print Assumptions C08_requests_complete.
+Print Assumptions mon_sound.
